@@ -2,12 +2,12 @@ SPECIFICATION Spec
 CONSTANTS
   GPUs = {1, 2}
   Unit = 1
-  PortCap = 2
+  PortCap = 1
   MCFrames <- Frames3
   FrameChunks = 1
-  MaxMig = 4
+  MaxMig = 3
   Serial = FALSE
-  Requesters = {1, 2}
+  Requesters = {1}
   AcceptGuard = "handling"
-INVARIANTS TypeOK ContentsCopied NothingElseChanged CompleteOnce OneAtATime RoutedBack InRange AllServed
+INVARIANTS NoStalledWindow
 CHECK_DEADLOCK FALSE
